@@ -192,6 +192,8 @@ fn scripts(prop: &str) -> Report {
         let n = if thorough { 1_000_000 } else { 300_000 };
         shards_btc.push(history_scripts(n));
         shards_fork.push(history_scripts(n));
+        shards_btc.push(representative_sequences());
+        shards_fork.push(representative_sequences());
     }
     shards_fork.extend(token_sequences(tok_len));
     if prop == "C14" {
